@@ -81,6 +81,8 @@ def mechanisms(run: Run, rec: dict):
     if n:
         c(f'players:{n}')
     c('variant:' + str(cfg.get('variant')))
+    if 'written' in cfg:
+        c('code-written' if cfg['written'] else 'code-refused:' + str(cfg.get('variant')))
     if cfg.get('tournament'):
         c('mode:tournament')
     else:
@@ -209,6 +211,8 @@ def replay_record(rp: dict, level=1):
     rec['cfg'] = pk.project_cfg(st, werr=werr, rake=spec.get('rake'),
                                 extra={'deckcards': sorted(pk.card_int(c) for c in st.deck), 'variant': spec['variant'], 'sb': pk.chip(spec.get('sb', 0)), 'bb': pk.chip(spec.get('bb', 0)), 'deck': games.deck_name(st.deck)})
     rec['create'] = {'out': 'ok', 'post': play.observe(st, 0), 'micro': mic}
+    if spec.get('via_phh') == 'written':
+        rec['cfg']['written'] = games.Last.written or ''
     for call in rp['calls']:
         probes, psame = play.probes(st, walk.probe_universe(st, rng, level), werr)
         ev = play.step(st, call['op'], call['a'], werr, probes, psame=psame)
